@@ -10,6 +10,7 @@ import (
 	"fmt"
 	"math/rand"
 	"os"
+	"os/exec"
 	"path/filepath"
 	"strings"
 	"sync"
@@ -499,4 +500,74 @@ func runSingle(r *runner, rng *rand.Rand) {
 		r.nontriv = true
 		r.rep.Hit("single.checked." + c.Kind.String())
 	}
+}
+
+// runPanic: the store worker dies in the middle of a batch (a command the store itself refuses to execute: its
+// assertions panic, which in the server ends the process). Whatever the cause of the death, nothing of the batch may
+// be in the database file afterwards: "all or none". The batch runs in a child process (this binary with -die-in) on a
+// database file; the parent then opens the file and looks.
+func runPanic(r *runner, rng *rand.Rand) {
+	scratch := os.Getenv("VERIF_SCRATCH")
+	if scratch == "" {
+		scratch = "/var/tmp"
+	}
+	file := filepath.Join(scratch, fmt.Sprintf("die-%d-%d.db", os.Getpid(), rng.Int63()))
+	defer os.Remove(file)
+	defer os.Remove(file + "-journal")
+	seed := rng.Int63()
+	cmd := exec.Command(os.Args[0], "-die-in", file, "-seed", fmt.Sprint(seed))
+	out, err := cmd.CombinedOutput()
+	r.rep.FaultPoints++
+	if err == nil {
+		r.violate("panic:child-survived", "the batch with a command the store asserts against was executed without a panic: "+clip(string(out)))
+		return
+	}
+	if !strings.Contains(string(out), "panic") {
+		r.rep.Inconclusive++
+		return
+	}
+	db, err := sql.Open("sqlite3", "file:"+file+"?_busy_timeout=5000")
+	if err != nil {
+		r.rep.Inconclusive++
+		return
+	}
+	defer db.Close()
+	var marker, before int
+	if err := db.QueryRow("SELECT count(*) FROM promises WHERE id LIKE 'dying-%'").Scan(&marker); err != nil {
+		r.rep.Inconclusive++
+		return
+	}
+	_ = db.QueryRow("SELECT count(*) FROM promises WHERE id LIKE 'earlier-%'").Scan(&before)
+	r.rep.Commits++
+	if before != 1 {
+		r.violate("panic:committed-batch-lost", fmt.Sprintf("the batch committed before the dying one left %d of 1 promises in the file", before))
+	}
+	if marker != 0 {
+		r.violate("panic:partial-effects", fmt.Sprintf("the store worker died in the middle of a batch (the process ended with a panic) and %d promise(s) of that batch are in the database file", marker))
+	}
+	r.nontriv = true
+	r.rep.Hit("panic.checked")
+}
+
+// dieChild: one committed batch, then a batch whose later command makes the store panic.
+func dieChild(file string, seed int64) {
+	b := openSqlite(file)
+	rng := rand.New(rand.NewSource(seed))
+	g := &Gen{r: rng, ref: NewRef()}
+	mk := func(id string) *t_aio.Command {
+		pc := g.createPromise()
+		pc.Id = id
+		return &t_aio.Command{Kind: t_aio.CreatePromise, CreatePromise: pc}
+	}
+	b.process(mkSQEs([]txr{{cmds: []*t_aio.Command{mk("earlier-1")}}}))
+	bad := mk("dying-bad")
+	bad.CreatePromise.Tags = nil // the store asserts "tags must not be nil"
+	n := 1 + rng.Intn(3)
+	var txs []txr
+	for i := 0; i < n; i++ {
+		txs = append(txs, txr{cmds: []*t_aio.Command{mk(fmt.Sprintf("dying-%d", i))}})
+	}
+	txs = append(txs, txr{cmds: []*t_aio.Command{bad}})
+	b.process(mkSQEs(txs))
+	fmt.Println("the store executed the batch")
 }
